@@ -1,7 +1,7 @@
 \* design check (quick): two suite files in either order: names, modes, rejections, cross-suite name collisions
 CONSTANTS
   RunModes = {0, 1}
-  CaseSets = {2, 3}
+  CaseSets = {3}
   MaxSuites = 2
   SNames = {1, 3}
   SModes = {0, 1}
